@@ -6,6 +6,7 @@ reference of mc.c08_dense under the a-priori rounding bounds of mc.c08_tol.  See
 """
 import itertools
 import math
+import os
 
 import numpy as np
 
@@ -642,6 +643,10 @@ RULE = (
 def run(tier, seed):
     res = Result()
     tasks = make_tasks(tier)
+    stride = int(os.environ.get("C08_TASK_STRIDE", "1"))     # development aid only (mutation screening)
+    if stride > 1:
+        tasks = tasks[::stride]
+        res.cov.cap(f"C08_TASK_STRIDE={stride}: only every {stride}-th task was run")
     for cov, viols in pmap(task, tasks):
         res.cov.merge(cov)
         res.violations.extend(viols)
